@@ -409,8 +409,12 @@ def symLayout (n : Nat) : List Float :=
   (List.range n).flatMap fun i => (List.range (i + 1)).map fun j => Float.ofNat (symIx n i j)
 
 def smallRecord : Gen (List String) := do
-  let c ← rnd 16
-  if c == 0 then
+  let c ← rnd 17
+  if c == 16 then
+    -- harness-only: all mixed products / sums / differences of {complex, conjugate, real} × {plain, negator}
+    let xs := [← rndVal, ← rndVal, ← rndVal, ← rndVal, ← rndVal, ← rndVal]
+    return [fl "I scalarmix" xs, "O scalarmix ok"]
+  else if c == 0 then
     let m ← rndM22
     return [fl "I det2" m.toList, fl "O det2" [m.det]]
   else if c == 1 then
